@@ -267,6 +267,13 @@ func (r *Run) solveAll() {
 	var todo []*Obligation
 	for _, o := range r.Obls {
 		if o.Backend == "" {
+			if r.knownSet[o.Name] && !r.Thorough && r.Dump == "" && os.Getenv("GOVC_LIST_FAILING") == "" {
+				// quick tier: a listed finding is reported, not re-solved (the thorough tier solves it and
+				// re-runs its witness on the real code)
+				o.Res = Result{Status: "skipped-known", Solver: "none"}
+				o.Backend = "none"
+				continue
+			}
 			todo = append(todo, o)
 		}
 	}
@@ -286,7 +293,7 @@ func (r *Run) solveAll() {
 		}
 		groups[o.x] = append(groups[o.x], o)
 	}
-	sem := make(chan struct{}, 12)
+	sem := make(chan struct{}, 14)
 	var wg sync.WaitGroup
 	if !r.Thorough && r.Dump == "" {
 		for _, x := range order {
@@ -294,8 +301,8 @@ func (r *Run) solveAll() {
 			if len(g) < 4 {
 				continue
 			}
-			for start := 0; start < len(g); start += 60 {
-				end := start + 60
+			for start := 0; start < len(g); start += 16 {
+				end := start + 16
 				if end > len(g) {
 					end = len(g)
 				}
@@ -311,6 +318,15 @@ func (r *Run) solveAll() {
 		}
 		wg.Wait()
 	}
+	nb := 0
+	for _, o := range todo {
+		if o.Res.Status == "unsat" {
+			nb++
+		}
+	}
+	r.Extra["discharged_in_batches"] = nb
+	r.Extra["raced_individually"] = len(todo) - nb
+	r.Extra["batch_stage_secs"] = round3(time.Since(r.t0).Seconds())
 	// 2. individually, racing the three solvers
 	sem2 := make(chan struct{}, 6)
 	for _, o := range todo {
@@ -337,8 +353,11 @@ func (r *Run) solveAll() {
 				tmo = 3 // a listed finding: its outcome only matters if it starts to discharge
 			}
 			if o.Cover || o.MustFail {
-				if tmo > 20 {
+				// vacuity guards fail only on `unsat`, which is found quickly when it is there
+				if r.Thorough {
 					tmo = 20
+				} else {
+					tmo = 3
 				}
 			}
 			o.Res = Solve(script, tmo, r.Thorough && !o.Cover && !o.MustFail)
